@@ -29,7 +29,7 @@ pub fn from_origin(args: IgnoreFilesFromOriginArgs, env: &mut DEnv) -> (r: (Vec<
     ensures
         // the result is: the explicit files, [the git-config excludes file], the origin-level VCS files that exist, then for every directory the
         // walker handed out, in order, its .ignore/.gitignore/.hgignore that exist: each tagged with the directory it applies in; nothing else
-        from_origin_result(r.0@, args, final(env).after_gitcfg@, final(env).visited@), // OBL:C14.from_origin.exactly_the_existing_files_of_the_visited_directories_tagged
+        from_origin_result(r.0@, args, final(env).after_gitcfg@, final(env).visited@), // OBL:C14+C12.from_origin.exactly_the_existing_files_of_the_visited_directories_tagged
         // every file found in a directory is added to the walker's filter before the next directory is asked for
         final(env).filter_added@ == all_dir_files(Seq::<IgnoreFile>::empty(), final(env).visited@), // OBL:C14.from_origin.found_files_prune_the_rest_of_the_walk
 //@ prologue
@@ -43,12 +43,12 @@ Ghost(explicit_entry(args.origin))
 let ghost pre_walk = ignore_files@; let ghost g1 = env.after_gitcfg@;
 invariant
     env.after_gitcfg@ == g1,
-    ignore_files@ == all_dir_files(pre_walk, env.visited@), // OBL:C14.from_origin.exactly_the_existing_files_of_the_visited_directories_tagged
+    ignore_files@ == all_dir_files(pre_walk, env.visited@), // OBL:C14+C12.from_origin.exactly_the_existing_files_of_the_visited_directories_tagged
     env.filter_added@ == all_dir_files(Seq::<IgnoreFile>::empty(), env.visited@), // OBL:C14.from_origin.found_files_prune_the_rest_of_the_walk
 //@ hint after `vx_extend_errors(&mut errors, dirs.errors);`
-proof { assert(from_origin_result(ignore_files@, args0, env.after_gitcfg@, env.visited@)); } // OBL:C14.from_origin.exactly_the_existing_files_of_the_visited_directories_tagged
+proof { assert(from_origin_result(ignore_files@, args0, env.after_gitcfg@, env.visited@)); } // OBL:C14+C12.from_origin.exactly_the_existing_files_of_the_visited_directories_tagged
 //@ hint after `errors.push(err);`
-proof { assert(from_origin_result(ignore_files@, args0, env.after_gitcfg@, env.visited@)); } // OBL:C14.from_origin.exactly_the_existing_files_of_the_visited_directories_tagged
+proof { assert(from_origin_result(ignore_files@, args0, env.after_gitcfg@, env.visited@)); } // OBL:C14+C12.from_origin.exactly_the_existing_files_of_the_visited_directories_tagged
 //@ item DirTourist
 //@ item DirTourist::must_skip
 //@ header
